@@ -244,6 +244,12 @@ def runsOuter (same : α → α → Bool) (m : IM σ α) (st : RunsSt σ α) : S
     | (.skip, pk') => (.skip, { st with pk := pk' })
     | (.done, pk') => (.done, { st with pk := pk' })
 
+/-- the consumer takes at most `take` items from each inner iterator (`none`: all of them) -/
+def takeReached (take : Option Nat) (k : Nat) : Bool :=
+  match take with
+  | some t => decide (t ≤ k)
+  | none => false
+
 /-- The documented protocol as one iterator: `Next` on the outer iterator, then up to `take` items
 are taken from the inner iterator (`none` = drain it completely, i.e. until it reports the end), then the outer
 iterator is advanced again. Yields each run as a list. -/
@@ -260,7 +266,7 @@ def runsProto (same : α → α → Bool) (take : Option Nat) (m : IM σ α) : I
       | (.skip, rs') => (.skip, { st with rs := rs' })
       | (.done, rs') => (.done, { st with rs := rs' })
     | some (g, acc, k) =>
-      if (match take with | some t => decide (t ≤ k) | none => false) then (.item acc, { st with cur := none })
+      if takeReached take k then (.item acc, { st with cur := none })
       else
         match runsInner same m g st.rs with
         | (.item a, rs') => (.skip, { rs := rs', cur := some (g, acc ++ [a], k + 1) })
